@@ -100,7 +100,35 @@ def content(p):
 
 
 @common.guarded("C04")
+def _container(v, kind):
+    """the same 2-D value handed over in another container / memory layout"""
+    import numpy as np
+    if kind in (None, "list"):
+        return [list(row) for row in v]
+    if kind == "tuple":
+        return tuple(tuple(row) for row in v)
+    a = np.array(v)
+    if kind == "ndarray":
+        return a
+    if kind == "fortran":
+        return np.asfortranarray(a)
+    if kind == "transposed-view":
+        return np.ascontiguousarray(a.T).T
+    if kind == "reversed-view":
+        return np.ascontiguousarray(a[::-1, ::-1])[::-1, ::-1]
+    if kind == "strided-view":
+        big = np.zeros((a.shape[0] * 2, a.shape[1] * 3), dtype=a.dtype)
+        big[::2, 1::3] = a
+        return big[::2, 1::3]
+    raise ValueError(kind)
+
+
+CONTAINERS = ["list", "tuple", "ndarray", "fortran", "transposed-view", "reversed-view", "strided-view"]
+
+
 def judge(src, vv, expect_params):
+    container = vv.get("__container__")
+    vv = {k: v for k, v in vv.items() if k != "__container__"}
     H = header_for(src)
     st, t = common.loads(H + src)
     feat = features(src)
@@ -120,7 +148,7 @@ def judge(src, vv, expect_params):
     if st2 == "exc":
         return "skip"      # the substituted script is outside the domain (e.g. division by zero): not a verdict on the template
     try:
-        inst = t(**{k: (v if not isinstance(v, list) else [list(row) for row in v]) for k, v in vv.items()})
+        inst = t(**{k: (v if not isinstance(v, list) else _container(v, container)) for k, v in vv.items()})
     except Exception as e:  # noqa
         if "self" in vv and isinstance(e, TypeError) and "multiple values for argument 'self'" in str(e):
             return ("C04/parameter-named-self", common.exc_sig(e))
@@ -195,7 +223,7 @@ def array_cases(ctx):
             names = ["u%d" % k for k in ps]
             for use in ("G(A[%d], A[%d]) | 0" % (ps[0], n - 1), "G(A) | 0", "G(1) | 0"):
                 src = "float array A =\n%s\n%s\n" % (rows, use)
-                for cls in ("dyadic", "generic") if ctx.quick else ("dyadic", "generic", "integer"):
+                for cls in ("dyadic", "generic", "integer"):     # (integer values next to non-integer literal elements)
                     vals = VALUE_CLASSES[cls]
                     vv = {nm: vals[(i + 1) % len(vals)] * (1 + i) for i, nm in enumerate(names)}
                     out.append((src, vv, names))
@@ -205,10 +233,13 @@ def array_cases(ctx):
             base = {"float": 0.5, "complex": 0.5 + 1j, "int": 2}[t]
             arr = [[(base * (1 + i * c + j) if t != "int" else 2 + i * c + j) for j in range(c)] for i in range(r)]
             names = ["P_%d_%d" % (i, j) for i in range(r) for j in range(c)] + (["a"] if "{a}" in use else [])
-            vv = {"P": arr}
-            if "{a}" in use:
-                vv["a"] = 0.25
-            out.append((src, vv, names))
+            for cont in CONTAINERS:
+                vv = {"P": arr}
+                if cont != "list":
+                    vv["__container__"] = cont
+                if "{a}" in use:
+                    vv["a"] = 0.25
+                out.append((src, vv, names))
     return out
 
 
